@@ -25,7 +25,7 @@ SHAPES = {
     'MessageHead': [('sess_init', ['MessageHead', 'SessionInit']), ('sess_term', ['MessageHead', 'SessionTerm']),
                     ('keepalive', ['MessageHead', 'Keepalive']), ('reject', ['MessageHead', 'RejectMsg']),
                     ('segment', ['MessageHead', 'TransferSegment']), ('ack', ['MessageHead', 'TransferAck']),
-                    ('refuse', ['MessageHead', 'TransferRefuse'])],
+                    ('refuse', ['MessageHead', 'TransferRefuse']), ('unknown_type', ['MessageHead', 'Raw'])],
 }
 
 
